@@ -60,11 +60,7 @@ impl<'a, T: ColumnProvider> ExpressionExecutionEngine<'a, T> {
                 }
 
                 if !left_value.is_null() && !right_value.is_null() {
-                    let ordering = match (&left_value, &right_value) {
-                        (Value::Int(x), Value::Float(y)) => compare_int_float(*x, y.0),
-                        (Value::Float(x), Value::Int(y)) => compare_int_float(*y, x.0).reverse(),
-                        _ => left_value.cmp(&right_value)
-                    };
+                    let ordering = compare_values(&left_value, &right_value);
 
                     match operator {
                         CompareOperator::Equal => Ok(Value::Bool(ordering == Ordering::Equal)),
@@ -188,7 +184,7 @@ impl<'a, T: ColumnProvider> ExpressionExecutionEngine<'a, T> {
                     let expected_value = self.evaluate(value)?;
                     if expected_value.is_null() {
                         any_null = true;
-                    } else if executed_operand == expected_value {
+                    } else if compare_values(&executed_operand, &expected_value) == Ordering::Equal {
                         return Ok(Value::Bool(!is_not));
                     }
                 }
@@ -650,6 +646,15 @@ impl std::fmt::Display for EvaluationError {
     }
 }
 
+
+// The comparison used by =, !=, <, <=, >, >= and IN: numbers compare by numeric value
+fn compare_values(left: &Value, right: &Value) -> Ordering {
+    match (left, right) {
+        (Value::Int(x), Value::Float(y)) => compare_int_float(*x, y.0),
+        (Value::Float(x), Value::Int(y)) => compare_int_float(*y, x.0).reverse(),
+        _ => left.cmp(right)
+    }
+}
 
 // Compares an INT with a REAL by numeric value, without rounding the INT (NaN is greater than every number)
 fn compare_int_float(x: i64, y: f64) -> Ordering {
